@@ -36,6 +36,9 @@ def force(method, per_element, dom, lits):
                               'self._formula._numvar == NV', 'ctake(self._formula._clauses, clen(C0)) == C0', 'clen(self._formula._clauses) >= clen(C0)'] + WF,
                       'modifies_objects': ['self._formula'], 'modifies_fields': {'self._formula': ['_clauses', '_numvar']}}
                   for k in range(0, 4)},
+        # a mapping created from ANOTHER formula is refused (ValueError), nothing is added: second variant, without the alias
+        'variants': {'own': {}, 'foreign': {'aliases': [], 'raises': {'ValueError': 'True'}, 'never_returns': True}},
+        'ensures_on_raise': ['self._formula._clauses == old(self._formula._clauses)', 'self._formula._numvar == old(self._formula._numvar)'],
         'ensures': [
             'sat(a, self._formula._clauses) == (sat(a, old(self._formula._clauses)) and forall(lambda u: implies(1 <= u and u <= f.{}, {})))'.format(dom, per_element.format(lits='{}(f.gid, u)'.format(lits))),
             'self._formula._numvar == old(self._formula._numvar)',
